@@ -194,7 +194,7 @@ class Run(RunBase):
         k = op["op"]
         sc = self.sc
         if k in ("q_occ", "q_state", "tr_obstacle", "tr_prediction", "set_prediction", "set_trajectory", "set_shape",
-                 "update_initial", "update_prediction"):
+                 "update_initial", "update_prediction", "set_initial"):
             ob = None
             for o in sc.obstacles:
                 if o.obstacle_id == op["id"]:
@@ -203,6 +203,8 @@ class Run(RunBase):
                 return False
             if k in ("set_prediction", "update_initial", "update_prediction"):
                 return isinstance(ob, DynamicObstacle)
+            if k == "set_initial":
+                return isinstance(ob, (DynamicObstacle, StaticObstacle))
             if k == "tr_prediction":
                 return getattr(ob, "prediction", None) is not None
             if k in ("set_trajectory", "set_shape"):
@@ -572,6 +574,16 @@ class Run(RunBase):
         self._after([("obstacle", op["id"])])
         return "ok"
 
+    def _op_set_initial(self, op):
+        ob = self._obstacle(op["id"])
+        st = build.build_state(dict(op["state"], cls="initial", t=ob.initial_state.time_step))
+
+        def f():
+            ob.initial_state = st
+        r = self._try("initial_state=", f)
+        self._after([("obstacle", op["id"])])
+        return r
+
     def _op_add_lanelet(self, op):
         la = build.build_lanelet(self.pool[op["key"]])
         if op["level"] == "scenario":
@@ -781,6 +793,14 @@ def _mutator(rng, run, cfg):
             shp = sorted(rng.subset(net, 0.4)) if rng.chance(0.6) else None
             yield {"op": k, "id": oid, "state": st, "signal": sig, "center": cen, "shape": shp,
                    "max_len": rng.pick(cfg["max_lens"])}
+        elif k == "set_initial":
+            c = _obstacle_ids(run, (DynamicObstacle, StaticObstacle))
+            if not c:
+                yield None
+                continue
+            yield {"op": k, "id": rng.pick(c),
+                   "state": {"pos": [rng.uniform(-30, 30), rng.uniform(-30, 30)], "ori": rng.uniform(-3, 3),
+                             "vel": rng.uniform(0, 10), "acc": 0.0, "yaw": 0.0, "slip": 0.0}}
         elif k == "add_lanelet":
             c = [key for key in sorted(run.pool) if run.enabled({"op": "add_lanelet", "key": key})]
             yield {"op": k, "key": rng.pick(c), "level": rng.pick(["scenario", "network"])} if c else None
@@ -825,7 +845,8 @@ def _restarter(rng, run, cfg):
 
 QUERIES = ["q_occ", "q_state", "q_scn_occ", "q_scn_states", "q_poly", "q_dist", "q_pos", "q_shape", "q_light", "sweep"]
 MUTATORS = ["tr_scenario", "tr_network", "tr_obstacle", "tr_prediction", "tr_lanelet", "set_prediction",
-            "update_prediction", "set_trajectory", "set_shape", "update_initial", "add_lanelet", "remove_lanelet",
+            "update_prediction", "set_trajectory", "set_shape", "update_initial", "set_initial", "add_lanelet",
+            "remove_lanelet",
             "set_cycle", "set_offset", "replace_cycle"]
 
 
@@ -839,7 +860,7 @@ class C11(Property):
                        "cell:occupancy_at_time<-translate_rotate[prediction]",
                        "cell:occupancy_at_time<-prediction=", "cell:occupancy_at_time<-prediction.trajectory=",
                        "cell:occupancy_at_time<-prediction.shape=", "cell:occupancy_at_time<-update_initial_state",
-                       "cell:occupancy_at_time<-update_prediction",
+                       "cell:occupancy_at_time<-update_prediction", "cell:occupancy_at_time<-initial_state=",
                        "cell:find_lanelet_by_position<-translate_rotate[network]",
                        "cell:find_lanelet_by_position<-translate_rotate[scenario]",
                        "cell:find_lanelet_by_shape<-translate_rotate[network]",
